@@ -686,43 +686,50 @@ fn corr_cluster(out: &mut Out, a: &[i64], b: &[i64]) {
 }
 
 // ------------------------------------------------------------------------------------------
-fn replay(path: &str) -> i32 {
-    let v = read_replay(path);
-    let inp = if v.get("input").is_some() { v["input"].clone() } else { v.clone() };
-    let mut out = Out::new("C15", "replay");
+/// evaluate the oracles of one stored input (replay file / corpus entry); false = unknown entry
+fn run_entry(out: &mut Out, inp: &Value, family: &str) -> bool {
+    let mut out = out;
     let pairs = |v: &Value| -> Vec<(i64, i64)> {
         v.as_array().map(|a| a.iter().map(|p| (p[0].as_i64().unwrap_or(0), p[1].as_i64().unwrap_or(0))).collect()).unwrap_or_default()
     };
     match inp["entry"].as_str().unwrap_or("") {
         "classification" => {
             let beta = hj(&json!([inp["beta"].clone()]))[0];
-            check_classification(&mut out, &hj(&inp["yt"]), &hj(&inp["yp"]), beta, "replay")
+            check_classification(&mut *out, &hj(&inp["yt"]), &hj(&inp["yp"]), beta, family)
         }
-        "auc" => check_auc(&mut out, &hj(&inp["yt"]), &hj(&inp["scores"]), "replay"),
-        "regression" => check_regression(&mut out, &hj(&inp["yt"]), &hj(&inp["yp"]), "replay"),
-        "mismatch" => check_mismatch(&mut out, &hj(&inp["yt"]), &hj(&inp["yp"])),
-        "cluster" => check_cluster(&mut out, &ij(&inp["a"]), &ij(&inp["b"]), &pairs(&inp["map_a"]), &pairs(&inp["map_b"]), "replay"),
+        "auc" => check_auc(&mut *out, &hj(&inp["yt"]), &hj(&inp["scores"]), family),
+        "regression" => check_regression(&mut *out, &hj(&inp["yt"]), &hj(&inp["yp"]), family),
+        "mismatch" => check_mismatch(&mut *out, &hj(&inp["yt"]), &hj(&inp["yp"])),
+        "cluster" => check_cluster(&mut *out, &ij(&inp["a"]), &ij(&inp["b"]), &pairs(&inp["map_a"]), &pairs(&inp["map_b"]), family),
         "corr" => {
             // a correspondence case has no oracle of its own: run the search oracles on its input
             match inp["metric"].as_str().unwrap_or("") {
-                "auc" => check_auc(&mut out, &hj(&inp["yt"]), &hj(&inp["scores"]), "replay"),
-                "cluster" => check_cluster(&mut out, &ij(&inp["a"]), &ij(&inp["b"]), &[], &[], "replay"),
-                "mse" | "mae" | "r2" => check_regression(&mut out, &hj(&inp["yt"]), &hj(&inp["yp"]), "replay"),
+                "auc" => check_auc(&mut *out, &hj(&inp["yt"]), &hj(&inp["scores"]), family),
+                "cluster" => check_cluster(&mut *out, &ij(&inp["a"]), &ij(&inp["b"]), &[], &[], family),
+                "mse" | "mae" | "r2" => check_regression(&mut *out, &hj(&inp["yt"]), &hj(&inp["yp"]), family),
                 _ => {
                     let (yt, yp) = (hj(&inp["yt"]), hj(&inp["yp"]));
                     if yt.len() == yp.len() {
                         let beta = if inp["beta"].is_string() { hj(&json!([inp["beta"].clone()]))[0] } else { 1.0 };
-                        check_classification(&mut out, &yt, &yp, beta, "replay")
+                        check_classification(&mut *out, &yt, &yp, beta, family)
                     } else {
-                        check_mismatch(&mut out, &yt, &yp)
+                        check_mismatch(&mut *out, &yt, &yp)
                     }
                 }
             }
         }
-        _ => {
-            eprintln!("unknown replay entry");
-            return 2;
-        }
+        _ => return false,
+    }
+    true
+}
+
+fn replay(path: &str) -> i32 {
+    let v = read_replay(path);
+    let inp = if v.get("input").is_some() { v["input"].clone() } else { v.clone() };
+    let mut out = Out::new("C15", "replay");
+    if !run_entry(&mut out, &inp, "replay") {
+        eprintln!("unknown replay entry");
+        return 2;
     }
     if out.n_fail() > 0 {
         println!("REPLAY: property=C15 still fails: {}", path);
@@ -730,6 +737,24 @@ fn replay(path: &str) -> i32 {
     } else {
         println!("REPLAY: property=C15 passes: {}", path);
         0
+    }
+}
+
+/// minimised regression inputs in /verif/corpus/C15 (absent when the harness runs from a scratch copy)
+fn run_corpus_dir(out: &mut Out) {
+    let dir = concat!(env!("CARGO_MANIFEST_DIR"), "/../corpus/C15");
+    let mut files: Vec<std::path::PathBuf> = match std::fs::read_dir(dir) {
+        Ok(rd) => rd.filter_map(|e| e.ok().map(|e| e.path())).filter(|p| p.extension().map(|x| x == "json").unwrap_or(false)).collect(),
+        Err(_) => return,
+    };
+    files.sort();
+    for f in files {
+        if let Ok(txt) = std::fs::read_to_string(&f) {
+            if let Ok(v) = serde_json::from_str::<Value>(&txt) {
+                let inp = if v.get("input").is_some() { v["input"].clone() } else { v.clone() };
+                run_entry(out, &inp, "corpus");
+            }
+        }
     }
 }
 
@@ -747,7 +772,8 @@ fn main() {
     );
     let th = a.thorough;
 
-    // ---- corpus: D10 (repaired): single-class labelling gave inf / NaN ----
+    // ---- corpus: files, then D10 (repaired): single-class labelling gave inf / NaN ----
+    run_corpus_dir(&mut out);
     check_cluster(&mut out, &[0, 0, 0, 0], &[0, 0, 1, 1], &[], &[], "corpus");
     check_cluster(&mut out, &[0, 0, 1, 1], &[7, 7, 7, 7], &[], &[], "corpus");
     check_cluster(&mut out, &[3, 3, 3], &[-2, -2, -2], &[(3, -5)], &[(-2, 9)], "corpus");
@@ -761,7 +787,7 @@ fn main() {
     corr_auc(&mut out, &[1., 0., 1., 0., 1.], &[0.5, 0.5, 0.5, 0.2, 0.9]);
 
     // ---- correspondence ----
-    let nc = if th { 150 } else { 36 };
+    let nc = if th { 200 } else { 60 };
     for i in 0..nc {
         // classification
         let n = if i < 3 { i } else { rng.usize_in(1, 40) };
@@ -884,7 +910,7 @@ fn main() {
             check_auc(&mut out, &yt, &s, "exhaustive-small");
         }
     }
-    let reps = if th { 15000 } else { 1200 };
+    let reps = if th { 150000 } else { 8000 };
     for i in 0..reps {
         let n = pick_n(&mut rng);
         let (yt, yp, fam) = gen_binary_pair(&mut rng, n);
